@@ -18,7 +18,7 @@ def run(ctx):
     rule_L1_sampler(ctx, {'shell'})
     rule_L3_L4(ctx)
     rule_L1d_transition(ctx)
-    rule_T3(ctx)
+    rule_T3(ctx, view=True)
     rule_T4(ctx)
     rule_A2_A6(ctx)
     from ..initrules import rule_I1
